@@ -33,6 +33,9 @@ def parse_archived_filename(archived_fname: str) -> Tuple[str, str, str]:
         *archived_fname_dirs, archived_fname_file = archived_fname.split(dir_separator)
         archived_fname_dir = '\\'.join(archived_fname_dirs)
     archived_fname_base, archived_fname_ext = os.path.splitext(archived_fname_file)
+    if archived_fname_ext in {'.gz', '.bz2'} and archived_fname_base.endswith('.tar'):
+        # compressed tar archives have a double extension: .tar.gz, .tar.bz2
+        archived_fname_ext = '.tar' + archived_fname_ext
     return archived_fname_dir, archived_fname_file, archived_fname_ext
 
 
